@@ -7,9 +7,13 @@
 (*             left associative, parentheses, W-byte two's complement;     *)
 (*             no value (zero divisor, malformed) = rejected.              *)
 (*  Machine  - the shipped evaluator, one action per loop iteration of     *)
-(*             EvalExpression::run(): at most 3 values and 2 operators,    *)
-(*             reduce as soon as a third value arrives.  Deliberate         *)
-(*             deviations from RefEval are *named* (field dev).            *)
+(*             EvalExpression::run(): a stack of values and a stack of     *)
+(*             waiting operators; an arriving operator first computes      *)
+(*             every waiting operator that binds at least as tightly.      *)
+(*             (Until the repair of Expr.ReduceWithoutLookahead this was   *)
+(*             a 3-value / 2-operator machine that reduced as soon as the  *)
+(*             third value arrived; the field dev, which named that        *)
+(*             deviation, stays in the state and is always empty.)         *)
 (*                                                                         *)
 (* Tokens:  [t |-> "num", v |-> word]  [t |-> "op", o |-> string]          *)
 (*          [t |-> "lp"]  [t |-> "rp"]                                     *)
@@ -93,8 +97,8 @@ RefEval(ts) == LET r == RBin(ts, 1, 6) IN
 (* st = [i, fr, res, dev]; fr is the stack of active run() invocations,    *)
 (* innermost last; a frame is [vals, ops, count, paren, un].               *)
 
-NeedSymbol(c) == c \in {1, 3}
-NeedNumber(c) == c \in {0, 2, 4}
+NeedSymbol(c) == c % 2 = 1
+NeedNumber(c) == c % 2 = 0
 
 Frame0(paren) == [vals |-> <<>>, ops |-> <<>>, count |-> 0, paren |-> paren, un |-> <<>>]
 MInit(ts) == [i |-> 1, fr |-> <<Frame0(FALSE)>>, res |-> [k |-> "run", v |-> WZero(W)], dev |-> {}]
@@ -102,40 +106,31 @@ MInit(ts) == [i |-> 1, fr |-> <<Frame0(FALSE)>>, res |-> [k |-> "run", v |-> WZe
 Top(st)  == st.fr[Len(st.fr)]
 SetTop(st, f) == [st EXCEPT !.fr[Len(st.fr)] = f]
 Done(st, k, v) == [st EXCEPT !.res = [k |-> k, v |-> v]]
-AddDev(st, d) == [st EXCEPT !.dev = @ \cup {d}]
 
-\* OperStack::get_precedence_index(): 1 = reduce the LAST two values
-PrecIndex(ops) == IF Len(ops) = 1 THEN 0
-                  ELSE IF Level(ops[1]) > Level(ops[2]) THEN 1 ELSE 0
-
-\* EvalExpression::execute_stack(); returns [ok, vals, ops, crash]
+\* EvalExpression::execute_stack(): the last operator on the last two values
 Exec(f) ==
-  IF PrecIndex(f.ops) = 0
-  THEN LET r == Apply(f.ops[1], f.vals[1], f.vals[2]) IN
-       [k |-> r.k, vals |-> <<r.v>> \o SubSeq(f.vals, 3, Len(f.vals)), ops |-> Tail(f.ops)]
-  ELSE LET r == Apply(f.ops[2], f.vals[2], f.vals[3]) IN
-       [k |-> r.k, vals |-> <<f.vals[1], r.v>>, ops |-> <<f.ops[1]>>]
+  LET n == Len(f.vals)
+      r == Apply(f.ops[Len(f.ops)], f.vals[n - 1], f.vals[n])
+  IN [k |-> r.k, vals |-> Append(SubSeq(f.vals, 1, n - 2), r.v), ops |-> SubSeq(f.ops, 1, Len(f.ops) - 1)]
 
 RECURSIVE ApplyUn(_, _)
 ApplyUn(un, v) == IF un = <<>> THEN v
                   ELSE ApplyUn(SubSeq(un, 1, Len(un) - 1),
                                IF un[Len(un)] = "-" THEN WNeg(v) ELSE WNot(v))
 
-\* a value arrives in the top frame (number, parenthesised result, unary result):
-\* push, count++, and reduce when the third value is in.
+\* a value arrives in the top frame (number, parenthesised result, unary result)
 PushVal(st, v, ts) ==
-  LET f  == Top(st)
-      f1 == [f EXCEPT !.vals = Append(@, v), !.count = @ + 1, !.un = <<>>]
-  IN IF Len(f1.vals) < 3 THEN SetTop(st, f1)
-     ELSE IF Len(f1.ops) # 2 THEN Done(st, "rej", v)
-     ELSE LET e == Exec(f1)
-              premature == /\ PrecIndex(f1.ops) = 1
-                           /\ st.i <= Len(ts) /\ IsBin(ts[st.i])
-                           /\ Level(ts[st.i].o) < Level(f1.ops[2])
-              st1 == IF premature THEN AddDev(st, "ReduceWithoutLookahead") ELSE st
-          IN IF e.k = "rej" THEN Done(st1, "rej", v)      \* Var::div / Var::mod return -1
-             ELSE IF e.k = "any" THEN Done(st1, "any", v)
-             ELSE SetTop(st1, [f1 EXCEPT !.vals = e.vals, !.ops = e.ops, !.count = @ - 2])
+  LET f == Top(st) IN SetTop(st, [f EXCEPT !.vals = Append(@, v), !.count = @ + 1, !.un = <<>>])
+
+\* a binary operator arrives: the while loop in front of oper_stack.push(); a frame whose
+\* count is negative stopped on a division without value (-1) or a shift outside the word (-2)
+RECURSIVE ReduceFor(_, _)
+ReduceFor(f, o) ==
+  IF f.ops # <<>> /\ Level(f.ops[Len(f.ops)]) <= Level(o)
+  THEN LET e == Exec(f) IN
+       IF e.k # "val" THEN [f EXCEPT !.count = IF e.k = "rej" THEN -1 ELSE -2]
+       ELSE ReduceFor([f EXCEPT !.vals = e.vals, !.ops = e.ops, !.count = @ - 2], o)
+  ELSE f
 
 \* the code after the loop of run(): fold what is left, hand the value up
 RECURSIVE FoldRest(_)
@@ -181,7 +176,7 @@ MStep(st, ts) ==
   ELSE IF t.t = "rp" THEN
      IF f.paren THEN Finish(adv, ts, "rp") ELSE Finish(st, ts, "pushback")
   ELSE IF t.t = "num" THEN
-     IF NeedSymbol(f.count) \/ Len(f.vals) = 3 THEN Done(st, "rej", WZero(W))
+     IF NeedSymbol(f.count) THEN Done(st, "rej", WZero(W))
      ELSE PushVal(adv, t.v, ts)
   ELSE IF t.t = "op" THEN
      IF NeedNumber(f.count) THEN
@@ -191,7 +186,10 @@ MStep(st, ts) ==
         ELSE Done(st, "rej", WZero(W))
      ELSE IF f.vals = <<>> \/ ~NeedSymbol(f.count) THEN Done(st, "rej", WZero(W))
      ELSE IF t.o \notin BinOps THEN Done(st, "rej", WZero(W))
-     ELSE SetTop(adv, [f EXCEPT !.ops = Append(@, t.o), !.count = @ + 1])
+     ELSE LET g == ReduceFor(f, t.o) IN
+          IF g.count = -1 THEN Done(st, "rej", WZero(W))
+          ELSE IF g.count = -2 THEN Done(st, "any", WZero(W))
+          ELSE SetTop(adv, [g EXCEPT !.ops = Append(@, t.o), !.count = @ + 1])
   ELSE Done(st, "rej", WZero(W))
 
 RECURSIVE MRun(_, _)
